@@ -187,6 +187,11 @@ def quote_span(ctx, lexpr):
     if f is None or q is None:
         r.anchor_missing("next_datum / Datum::quotation")
         return
+    # the arm may live in a worker next_datum was split into: the part that calls Datum::quotation is the one examined
+    for g in lexpr.parts_of(f.path):
+        if g.kind != "closure" and any(t["callee"].get("path", "") == "datum::Datum::quotation" for _b, t in g.calls()):
+            f = g
+            break
     defs = common.defs_of(f)
     idom = cfg.dominators(f)
     qcalls = [(bi, t) for bi, t in f.calls() if t["callee"].get("path", "") == "datum::Datum::quotation"]
